@@ -56,6 +56,23 @@ Theorem C20_b64_decode_sound : forall a l bs,
   exists k, l = b64_encode_engine (no_pad_engine a) bs ++ repeat 61 k /\ bytes bs.
 Proof. exact b64_decode_sound_engine. Qed.
 
+(* encoding block by block: cutting the input after a multiple of 3 bytes gives the same text (every
+   block but the last encoded without padding); cutting elsewhere does not - the pieces' encodings
+   concatenated differ from the encoding of the whole and do not decode back to it.  (This is the
+   periodicity the harness uses to print long texts in run-length form, and the class of defect
+   "encoder fed in blocks of 4096 bytes".) *)
+Theorem C20_b64_blockwise : forall e l1 l2,
+  (length l1 mod 3 = 0)%nat ->
+  b64_encode_engine e (l1 ++ l2) =
+  b64_encode_engine (no_pad_engine (fst (engine_cfg e))) l1 ++ b64_encode_engine e l2.
+Proof. exact encode_blockwise. Qed.
+
+Theorem C20_b64_blockwise_needs_multiple_of_3 :
+  exists e l1 l2, b64_encode_engine e (l1 ++ l2) <> b64_encode_engine e l1 ++ b64_encode_engine e l2 /\
+                  b64_decode_bytes (alphabet_of (fst (engine_cfg e))) Indifferent false
+                                   (b64_encode_engine e l1 ++ b64_encode_engine e l2) <> DOk (l1 ++ l2).
+Proof. exact encode_blockwise_needs_3. Qed.
+
 (* a text of length 1 mod 4 is never accepted *)
 Theorem C20_b64_decode_bad_length_is_err : forall al mode allow_trailing l,
   (length l mod 4 = 1)%nat -> exists e, b64_decode_bytes al mode allow_trailing l = DErr e.
@@ -143,6 +160,7 @@ Print Assumptions C20_slug_alphabet.
 Print Assumptions C20_json_object_faithful.
 Print Assumptions C20_b64_decode_invalid_is_err.
 Print Assumptions C20_b64_decode_sound.
+Print Assumptions C20_b64_blockwise.
 
 (* non-vacuity *)
 Example C20_ex_b64 :
